@@ -88,7 +88,10 @@ Inductive cev :=
 (* AsyncPing: entry stored / removed by pong or by the cancel function *)
 | PingStart (id : Z) | PingEnd (id : Z)
 (* virtual time for every deadline of the connection; one CheckExpirations *)
-| AgeAll (ms : Z) | TickAll.
+| AgeAll (ms : Z) | TickAll
+(* one CheckExpirations while the transport is down (down = true): every session.WriteMessage of a
+   retransmitted copy returns an error *)
+| TickAllW (down : bool).
 
 Definition dummy_msg (t : Z) : B.msg :=
   {| B.mcode := 0; B.mtok := t; B.mb1 := None; B.mb2 := None; B.ms1 := None; B.ms2 := None;
@@ -108,6 +111,24 @@ Definition rstep (c : R.cfg) (s : conn) (e : R.ev) : conn := with_rx s (fst (R.s
 (* the ping entries obey the rules of the pending table: run them through the same step *)
 Definition pstep (c : R.cfg) (l : list R.pend) (e : R.ev) : list R.pend :=
   R.pending (fst (R.step c {| R.reqs := []; R.pending := l |} e)).
+
+(* checkMidHandlerContainer with the outcome of session.WriteMessage.  Retransmit() counts the
+   attempt BEFORE the copy is written; a write error is reported through cc.errors and changes
+   nothing in the table.  [wfail id]: the write of the copy of entry id fails.  Result: the entries
+   kept, the copies that reached the wire, the number of write errors reported. *)
+Fixpoint tick_all_w (c : R.cfg) (wfail : Z -> bool) (l : list R.pend) : list R.pend * list R.emit * Z :=
+  match l with
+  | [] => ([], [], 0)
+  | p :: r =>
+      let '(r', e', n') := tick_all_w c wfail r in
+      match R.tick_entry c p with
+      | (None, _) => (r', e', n')
+      | (Some p', true) =>
+          if wfail (R.p_id p') then (p' :: r', e', n' + 1) else (p' :: r', R.Copy (R.p_id p') :: e', n')
+      | (Some p', false) => (p' :: r', e', n')
+      end
+  end.
+Definition tick_w_tbl (c : R.cfg) (wfail : Z -> bool) (l : list R.pend) : list R.pend := fst (fst (tick_all_w c wfail l)).
 
 Definition remove_nat (x : nat) (l : list nat) : list nat := filter (fun y => negb (Nat.eqb y x)) l.
 
@@ -175,6 +196,11 @@ Definition step (c : R.cfg) (s : conn) (e : cev) : conn :=
   | TickAll =>
       let s1 := with_dd s (fst (D.step (dd s) D.Tick)) in
       with_pg (rstep c s1 R.Tick) (pstep c (pg s1) R.Tick)
+  | TickAllW down =>
+      let s1 := with_dd s (fst (D.step (dd s) D.Tick)) in
+      let w := fun _ : Z => down in
+      with_pg (with_rx s1 {| R.reqs := R.reqs (rx s1); R.pending := tick_w_tbl c w (R.pending (rx s1)) |})
+              (tick_w_tbl c w (pg s1))
   end.
 
 Definition run (c : R.cfg) (s : conn) (evs : list cev) : conn := fold_left (step c) evs s.
